@@ -112,7 +112,38 @@ func isSignedDigits(s string) bool {
 	return true
 }
 
+// word boundaries of machine arithmetic: 2^31, 2^32, 2^63, 2^64, 2^128 (± small k)
+func c33GenWordBoundary(r *Rand) *big.Int {
+	k := uint(Pick(r, []int{31, 32, 63, 63, 64, 64, 64, 128}))
+	n := new(big.Int).Lsh(big.NewInt(1), k)
+	n.Add(n, big.NewInt(int64(r.Range(-3, 3))))
+	return n
+}
+
+// a pair of operands, each below a word boundary, whose sum crosses it (or just fails to)
+func c33GenCrossingPair(r *Rand) (*big.Int, *big.Int) {
+	k := uint(Pick(r, []int{32, 63, 64, 64, 64, 128}))
+	B := new(big.Int).Lsh(big.NewInt(1), k)
+	a := new(big.Int).SetBytes(r.Bytes(int(k)/8 + 1))
+	a.Mod(a, B)
+	switch r.Intn(4) {
+	case 0:
+		a = new(big.Int).Rsh(B, 1)
+	case 1:
+		a = new(big.Int).Sub(B, big.NewInt(int64(r.Range(1, 3))))
+	}
+	b := new(big.Int).Sub(B, a)
+	b.Add(b, big.NewInt(int64(r.Range(-2, 12))))
+	if b.Sign() < 0 {
+		b.SetInt64(0)
+	}
+	return a, b
+}
+
 func genAmount(r *Rand) *big.Int {
+	if r.Chance(1, 8) {
+		return c33GenWordBoundary(r)
+	}
 	switch r.Intn(10) {
 	case 0:
 		return big.NewInt(int64(r.Intn(3)))
@@ -225,8 +256,15 @@ func init() {
 			case 3:
 				return []string{"print " + a.String()}
 			case 4:
+				if r.Chance(1, 3) {
+					a, b = c33GenCrossingPair(r)
+				}
 				return []string{"add " + a.String() + " " + b.String()}
 			case 5:
+				if r.Chance(1, 4) { // difference across a word boundary
+					x, y := c33GenCrossingPair(r)
+					a, b = new(big.Int).Add(x, y), y
+				}
 				if r.Bool() && a.Cmp(b) < 0 {
 					a, b = b, a
 				}
